@@ -290,9 +290,51 @@ def run(c):
             break
     c.extra["rejected_under_load_not_reproduced"] = unreproduced
     kernel_half(c)
+    late_record(c)
     c.rule = ("histories = every sequence of 5 operations (connect attributed as root->WireServer / user->IMDS or direct, on "
               "either of two source ports incl. reuse; request; close) over two connection slots printed by TLC; plus a "
               "concurrent stress run with keep-alive and immediate port reuse")
+
+
+def late_record(c, prop="C07"):
+    """A record appears under a source-port number while a connection with that port number is already open (the kernel
+    publishes it for ANOTHER socket: a different local address, or a connect that never reaches accept): the open
+    connection keeps what it had at accept -- nothing for a direct connection, its own identity for an attributed one."""
+    steps, meta = [], []
+    root_ws = {"uid": 0, "admin": 1, "dip": "168.63.129.16", "dport": 80}
+    user_imds = {"uid": 1, "admin": 0, "dip": "169.254.169.254", "dport": 80}
+    for i in range(6):
+        d, a = "lr_d%d" % i, "lr_a%d" % i
+        # a direct connection, idle; then a record under its port number; then its first request
+        steps += [{"op": "connect", "conn": d, "wait": False}, {"op": "sleep", "ms": 60 if i % 2 else 5},
+                  {"op": "inject_record", "conn": d, "attr": root_ws if i % 3 else user_imds}]
+        meta.append({"e": "conn", "conn": d, "attributed": False, "elevated": False, "dest": "none"})
+        for k in range(2):
+            rid = "%s_r%d" % (d, k)
+            steps.append({"op": "request", "conn": d, "id": rid, "method": "GET", "target": "/late/%s" % rid, "headers": [["Host", "h"]]})
+            meta.append({"e": "req", "conn": d, "id": rid})
+        steps.append({"op": "close", "conn": d})
+        # an attributed keep-alive connection; a foreign record appears under its port number between two requests
+        steps += [{"op": "connect", "conn": a, "attr": root_ws, "wait": True}]
+        meta.append({"e": "conn", "conn": a, "attributed": True, "elevated": True, "dest": "ws"})
+        for k in range(3):
+            rid = "%s_r%d" % (a, k)
+            if k == 1:
+                steps.append({"op": "inject_record", "conn": a, "attr": user_imds})
+            steps.append({"op": "request", "conn": a, "id": rid, "method": "GET", "target": "/late/%s" % rid, "headers": [["Host", "h"]]})
+            meta.append({"e": "req", "conn": a, "id": rid})
+        steps.append({"op": "close", "conn": a})
+    ev, d_, _ = rig.run_rig({"steps": steps, "drain_ms": 200}, "late_%s" % prop.lower(), timeout=300)
+    rows = [{"e": "reset"}] + rows_from(ev, meta)
+    ok, why, res = validate_trace(c, "SingleUseTrace", "SingleUseTrace.cfg", rows, "late_%s" % prop, count=1, timeout=300)
+    c.extra["late_record_requests"] = sum(1 for m in meta if m["e"] == "req")
+    if not ok:
+        import re
+        ids = re.findall(r'id \|-> "(lr_[ad]\d+_r\d+)"', res.trace_text or "")
+        bad = next((r for r in rows if ids and r.get("id") == ids[-1]), None)
+        c.violation("a connection was served with a record published after it was accepted (for another socket with the same "
+                    "source-port number): %s" % bad, {"kind": "record-adopted-after-accept", "broken": why.replace("invariant ", "")},
+                    {"rows": rows})
 
 
 def kernel_half(c):
